@@ -197,8 +197,8 @@ def t_rollback_commit(ex):
 
 # -------------------------------------------------------- bounded stand-in ----
 def _room(fails, flagged):
-    n = sum(1 for f in fails if bool(f["model"].get("disables_absent_flag")) == bool(flagged))
-    return n < (2 if flagged else 6)
+    n = sum(1 for f in fails if bool(f["model"].get("disables_absent_flag") or f["model"].get("enables_present_flag")) == bool(flagged))
+    return n < (4 if flagged else 6)
 
 
 def enum_histories(seed):
@@ -214,12 +214,14 @@ def enum_histories(seed):
         return tuple(sorted(f for f in "abc" if f in configurable))
     W = make_wrapper(None, "use", attributes_to_wrap={"depend": evaluator})
     cases, fails = 0, []
-    ops = ["read", "en a", "en b", "dis a", "dis b", "en c", "dis c", "rb", "commit", "en locked", "dis a b"]
+    # (a request may name a flag twice, also next to a locked one: "en a a locked" must be refused and leave the USE set alone)
+    ops = ["read", "en a", "en b", "dis a", "dis b", "en c", "dis c", "rb", "commit", "en locked", "dis a b", "en a a locked", "en b b", "en c c"]
     for trial in range(600):
         w = W(Raw(), initial_settings=rnd.sample("abc", rnd.randint(0, 2)), unchangable_settings=["locked"])
         marks = [w.changes_count()]
+        snap = {marks[0]: frozenset(w.use)}     # the USE set at every point a rollback may return to
         hist = []
-        absent_disabled = False
+        absent_disabled = present_enabled = False
         for _ in range(rnd.randint(2, 7)):
             op = rnd.choice(ops)
             hist.append(op)
@@ -228,28 +230,45 @@ def enum_histories(seed):
                 pass
             elif op == "rb":
                 pt = rnd.choice([m for m in marks if m <= w.changes_count()])
-                w.rollback(pt)
+                try:
+                    w.rollback(pt)
+                except Exception as e:
+                    if _room(fails, absent_disabled or present_enabled):
+                        fails.append({"model": {"history": list(hist), "disables_absent_flag": absent_disabled, "enables_present_flag": present_enabled},
+                                      "detail": f"history {hist}: rollback to change count {pt} (a point handed out earlier, at most the current count) raised {type(e).__name__}: {e}"})
+                    break
                 marks = [m for m in marks if m <= pt]
+                if pt in snap and frozenset(w.use) != snap[pt] and _room(fails, absent_disabled or present_enabled):
+                    fails.append({"model": {"history": list(hist), "disables_absent_flag": absent_disabled, "enables_present_flag": present_enabled}, "detail": f"history {hist}: rolled back to change count {pt}, where the USE set was {sorted(snap[pt])}; it is {sorted(w.use)}"})
             elif op == "commit":
                 w.commit()
                 marks = [w.changes_count()]
+                snap = {marks[0]: frozenset(w.use)}
             else:
                 kind, *flags = op.split()
                 if kind == "dis" and any(f not in w.use for f in flags):
                     absent_disabled = True   # input feature of known finding KF-C14-1
+                if kind == "en" and any(f in w.use for f in flags):
+                    present_enabled = True   # input feature of known finding KF-C14-2 (the flag was set before the request)
                 try:
                     r = (w.request_enable if kind == "en" else w.request_disable)("use", *flags)
                 except KeyError:
                     hist.pop()
                     continue   # disabling a flag that is not set: outside the callers' precondition
-                if r is False and set(w.use) != before and _room(fails, absent_disabled):
-                    fails.append({"model": {"history": list(hist), "disables_absent_flag": absent_disabled}, "detail": f"history {hist}: refused request changed the USE set {sorted(before)} -> {sorted(w.use)}"})
+                except Exception as e:
+                    if _room(fails, absent_disabled or present_enabled):
+                        fails.append({"model": {"history": list(hist), "disables_absent_flag": absent_disabled, "enables_present_flag": present_enabled},
+                                      "detail": f"history {hist}: the last request raised {type(e).__name__}: {e} (a request is granted or refused, and a refused one leaves the USE set as it was)"})
+                    break
+                if r is False and set(w.use) != before and _room(fails, absent_disabled or present_enabled):
+                    fails.append({"model": {"history": list(hist), "disables_absent_flag": absent_disabled, "enables_present_flag": present_enabled}, "detail": f"history {hist}: refused request changed the USE set {sorted(before)} -> {sorted(w.use)}"})
                 marks.append(w.changes_count())
+                snap.setdefault(w.changes_count(), frozenset(w.use))
             cases += 1
             want = tuple(sorted(f for f in "abc" if f in w.use))
-            if w.depend != want and _room(fails, absent_disabled):
-                fails.append({"model": {"history": list(hist), "disables_absent_flag": absent_disabled}, "detail": f"history {hist}: depend reads {w.depend} but USE is {sorted(w.use)} (expected {want})"})
-    return {"name": "C14.PackageWrapper.bounded_enumeration", "bound": "600 random histories of <= 7 enable/disable/rollback/commit/read steps over 3 flags, attribute read after every step",
+            if w.depend != want and _room(fails, absent_disabled or present_enabled):
+                fails.append({"model": {"history": list(hist), "disables_absent_flag": absent_disabled, "enables_present_flag": present_enabled}, "detail": f"history {hist}: depend reads {w.depend} but USE is {sorted(w.use)} (expected {want})"})
+    return {"name": "C14.PackageWrapper.bounded_enumeration", "bound": "600 random histories of <= 7 enable/disable/rollback/commit/read steps over 3 flags (requests naming a flag twice, also next to a locked one, included), attribute read after every step, the USE set compared after every rollback with what it was at that point",
             "cases": cases, "failures": fails}
 
 
@@ -303,7 +322,12 @@ def enum_real_depsets(seed):
             hist.append(op)
             if op == "rb":
                 pt = rnd.choice([m for m in marks if m <= w.changes_count()])
-                w.rollback(pt)
+                try:
+                    w.rollback(pt)
+                except Exception as e:
+                    if len(fails) < 5:
+                        fails.append({"model": {"history": list(hist)}, "detail": f"history {hist}: rollback to change count {pt} (a point handed out earlier, at most the current count) raised {type(e).__name__}: {e}"})
+                    break
                 marks = [m for m in marks if m <= pt]
             elif op == "commit":
                 w.commit()
@@ -354,4 +378,4 @@ def tasks():
 
 
 REPLAY = {}
-WITNESSES = {"disables_absent_flag": lambda m: bool(m.get("disables_absent_flag"))}
+WITNESSES = {"disables_absent_flag": lambda m: bool(m.get("disables_absent_flag")), "enables_present_flag": lambda m: bool(m.get("enables_present_flag"))}
